@@ -223,6 +223,17 @@ func (exec *BatchExecutor) executeItemWithMiddleware(ctx context.Context, bi *km
 		}
 	}
 	respBi, err := chain(0)(ctx, bi)
+	if respBi == nil {
+		// A middleware may return no response item (typically along with an error). Answer for the
+		// request item instead of dereferencing a nil pointer.
+		respBi = &kmip.ResponseBatchItem{
+			Operation:         bi.Operation,
+			UniqueBatchItemID: bi.UniqueBatchItemID,
+		}
+		if err == nil {
+			err = errors.New("No response for batch item")
+		}
+	}
 	if err != nil {
 		handleBatchItemError(ctx, respBi, err)
 	}
